@@ -29,7 +29,20 @@ Cases ==
         where |-> << And2(Sub(<< Atoms[i].f, Atoms[j].f >>), Atoms[k].f) >>] : i \in Basis, j \in Basis, k \in Basis }
      \cup { [txt |-> Atoms[k].txt \o " (" \o Atoms[i].txt \o " | " \o Atoms[j].txt \o " " \o Atoms[k].txt \o ") | " \o Atoms[i].txt,
              where |-> << And2(Atoms[k].f, Sub(<< Atoms[i].f, And2(Atoms[j].f, Atoms[k].f) >>)), Atoms[i].f >>] : i \in Basis, j \in Basis, k \in Basis })
-Init == q \in Cases
+\* parentheses nested two and three levels deep, over a small basis (every depth; the tree builder keeps a stack of groups)
+Mini == { i \in Basis : Atoms[i].txt \in {"o", "P1", "+pj1", "@cx1"} }
+P(i) == Atoms[i].txt
+Nested ==
+  { [txt |-> P(k) \o " (" \o P(i) \o " (" \o P(j) \o " | " \o P(l) \o ") | " \o P(m) \o ")",
+     where |-> << And2(Atoms[k].f, Sub(<< And2(Atoms[i].f, Sub(<< Atoms[j].f, Atoms[l].f >>)), Atoms[m].f >>)) >>]
+    : i \in Mini, j \in Mini, k \in Mini, l \in Mini, m \in Mini }
+  \cup { [txt |-> "((" \o P(i) \o " | " \o P(j) \o ") " \o P(k) \o " | " \o P(l) \o ") " \o P(m),
+          where |-> << And2(Sub(<< And2(Sub(<< Atoms[i].f, Atoms[j].f >>), Atoms[k].f), Atoms[l].f >>), Atoms[m].f) >>]
+         : i \in Mini, j \in Mini, k \in Mini, l \in Mini, m \in Mini }
+  \cup { [txt |-> "(" \o P(i) \o " ((" \o P(j) \o " | " \o P(k) \o ") " \o P(l) \o " | " \o P(m) \o ") | " \o P(i) \o ") | " \o P(j),
+          where |-> << Sub(<< And2(Atoms[i].f, Sub(<< And2(Sub(<< Atoms[j].f, Atoms[k].f >>), Atoms[l].f), Atoms[m].f >>)), Atoms[i].f >>), Atoms[j].f >>]
+         : i \in Mini, j \in Mini, k \in Mini, l \in Mini, m \in Mini }
+Init == q \in Cases \cup (IF Depth < 2 THEN {} ELSE Nested)
 Next == UNCHANGED q
 Spec == Init /\ [][Next]_q
 EmitCase == PrintT(ToJson([txt |-> q.txt, where |-> q.where, exp |-> Result(U0, q.where)]))
